@@ -15,6 +15,8 @@
   `known_*` theorems stop checking (delete them) and the commented theorems check (uncomment them).
 -/
 import RbModel.Lemmas.Tag
+import RbModel.Lemmas.TagScript
+import RbModel.Spec.ScriptAlias
 
 namespace RbModel.Tag
 
@@ -647,3 +649,71 @@ theorem C01_tag_total_partial (script : Option Tag) (lang : Option Bytes) (ha : 
 example : Ascii (asc "zh-Hant-HK") := by intro x hx; simp [asc] at hx; omega
 
 end RbModel.Tag
+
+/-! ## ISO 15924 code → `Script` (`Script::from_iso15924_tag`, `Script::from_str`)
+
+`TagScript.tree` is the function as compiled: its statements in source order and its constants are transcribed from
+the Rust source on every check (`Gen/ScriptIso.lean`). -/
+
+namespace RbModel.TagScript
+open RbModel.Spec.ScriptAlias (tg variants)
+
+/-- Every generated row is a statement the model knows (nothing is dropped when `tree` is built). -/
+theorem C18_gen_script_iso_decoded : (Gen.ScriptIso.steps.map stepOfRow).all Option.isSome = true := by decide +kernel
+
+/-- The compiled function rejects the null tag, THEN adjusts the case to one capital + three small letters, THEN
+    maps the variant codes; a well-formed code is itself, anything else is `Zzzz`. -/
+theorem C18_gen_script_iso_order :
+    tree.pre = [.nullCheck, .adjust 0xDFDFDFDF 0x00202020, .alias (aliasRows tree)] ∧
+    tree.mask = 0xE0E0E0E0 ∧ tree.value = 0x40606060 ∧ tree.unknown = tg 'Z' 'z' 'z' 'z' := by
+  decide +kernel
+
+/-- The variant codes the function maps are exactly those of ISO 15924, each to the script it is a variant of. -/
+theorem C18_script_alias_table : aliasRows tree = variants := by decide +kernel
+
+/-- Script codes are case-insensitive: every non-null tag gets the answer of its title-cased spelling — in
+    particular every four-letter ASCII code, variant codes included. -/
+theorem C18_script_tag_case_insensitive (t : Nat) (ht : t ≠ 0) :
+    fromIso15924 tree t = fromIso15924 tree (titlecase t) :=
+  fromIso_adjust_first tree _ _ _ C18_gen_script_iso_order.1 (by decide) t ht
+
+/-- … hence two spellings that differ only in letter case select the same script. -/
+theorem C18_script_tag_same_case_class (t u : Nat) (ht : t ≠ 0) (hu : u ≠ 0) (h : titlecase t = titlecase u) :
+    fromIso15924 tree t = fromIso15924 tree u := by
+  rw [C18_script_tag_case_insensitive t ht, C18_script_tag_case_insensitive u hu, h]
+
+example : titlecase (tg 'j' 'A' 'M' 'o') = titlecase (tg 'J' 'a' 'm' 'o') ∧ tg 'j' 'A' 'M' 'o' ≠ 0 := by decide
+
+/-- A variant code in ANY letter case selects the script it is a variant of (`jamo`, `HANS`, `aran`, … included). -/
+theorem C18_script_alias_parent (a p t : Nat) (hap : (a, p) ∈ variants) (ht : t ≠ 0) (hta : titlecase t = a) :
+    fromIso15924 tree t = some p := by
+  rw [C18_script_tag_case_insensitive t ht, hta]
+  have hall : ∀ r ∈ variants, fromIso15924 tree r.1 = some r.2 := by decide +kernel
+  exact hall (a, p) hap
+
+example : (tg 'J' 'a' 'm' 'o', tg 'H' 'a' 'n' 'g') ∈ variants ∧ titlecase (tg 'j' 'a' 'm' 'o') = tg 'J' 'a' 'm' 'o' := by
+  decide
+
+/-- The parent of every variant code is a script constant of the crate. -/
+theorem C18_script_alias_parent_known : ∀ r ∈ variants, r.2 ∈ Gen.ScriptIso.scriptConstants := by decide +kernel
+
+/-- Every script constant of the crate is selected by its own code in ANY letter case (no constant is shadowed by a
+    variant code, every constant is well-formed). -/
+theorem C18_script_constant_any_case (c t : Nat) (hc : c ∈ Gen.ScriptIso.scriptConstants) (ht : t ≠ 0)
+    (htc : titlecase t = c) : fromIso15924 tree t = some c := by
+  rw [C18_script_tag_case_insensitive t ht, htc]
+  have hall : ∀ c ∈ Gen.ScriptIso.scriptConstants, fromIso15924 tree c = some c := by decide +kernel
+  exact hall c hc
+
+example : tg 'D' 'e' 'v' 'a' ∈ Gen.ScriptIso.scriptConstants ∧ titlecase (tg 'd' 'E' 'V' 'A') = tg 'D' 'e' 'v' 'a' := by
+  decide +kernel
+
+/-- `Script::from_str` rejects exactly the empty string; otherwise it is `from_iso15924_tag` of the first four bytes
+    padded with spaces. -/
+theorem C18_script_from_str (s : List Nat) :
+    fromStr tree s = if s = [] then none else fromIso15924 tree (tagFromBytesLossy s) := by
+  cases s with
+  | nil => decide +kernel
+  | cons a r => simp [fromStr]
+
+end RbModel.TagScript
